@@ -278,7 +278,7 @@ package evm
 // height), never on the wrapper the block executor writes through
 //@ func (ctrler *EVMCtrler) callVM(from, to, data, height, blockTime)
 //@   objinv ctrler != nil
-//@   requires ctrler.metadb != nil && ctrler.acctHandler != nil
+//@   assumes ctrler.metadb != nil && ctrler.acctHandler != nil
 //@   modifies everything
 //@   ensures (result1 == nil) <==> (result0 != nil)
 //@   assert@call(ImmutableStateAt,0): $arg0 == ctrler && $arg1 == height                                        [C03,C17,C19]
